@@ -46,9 +46,33 @@ def git_rev(path: str) -> str:
 # --------------------------------------------------------------------------------------
 # one run
 # --------------------------------------------------------------------------------------
+_CACHED = None
+
+
+def reset_process_caches():
+    """Every run must start from the state a fresh process would have: memoised functions inside
+    pyrtma (functools.lru_cache wrappers, found by their cache_clear attribute) are emptied."""
+    global _CACHED
+    if _CACHED is None or len(sys.modules) != _CACHED[0]:
+        found = []
+        for name, mod in list(sys.modules.items()):
+            if mod is None or not (name == "pyrtma" or name.startswith("pyrtma.")):
+                continue
+            for attr, val in list(vars(mod).items()):
+                if callable(getattr(val, "cache_clear", None)) and getattr(val, "__module__", "").startswith("pyrtma"):
+                    found.append(val)
+        _CACHED = (len(sys.modules), found)
+    for fn in _CACHED[1]:
+        try:
+            fn.cache_clear()
+        except Exception:
+            pass
+
+
 def execute(spec, choices: Choices, forced=None):
     """Run one simulated execution; returns (RunResult | None, error string | None)."""
     faulthandler.dump_traceback_later(RUN_WALL_S, exit=True)
+    reset_process_caches()
     try:
         res = spec.run(choices, forced) if forced is not None else spec.run(choices)
         return res, None
